@@ -163,6 +163,9 @@ type vScalarHolder struct {
 	FV float64 `value:"${f}"`
 	FX float64 `prefix:"f"`
 	SX string  `prefix:"i"` // an integer bound by prefix to a string field: its decimal text
+	UV uint64  `value:"${u}"`
+	UX uint64  `prefix:"u"`
+	SK string  `value:"${k/é w}"` // a key with characters beyond [A-Za-z0-9_.-]
 }
 
 func VerifC17Scalars() {
@@ -171,7 +174,9 @@ func VerifC17Scalars() {
 	iv := ints[nd.Choose(len(ints))]
 	fv := floats[nd.Choose(len(floats))]
 	nd.Known("C17/large-integer-through-float64", int(float64(iv)) != iv || iv == 9223372036854775807)
-	cfg := &vCfg{keys: []string{"i", "f"}, vals: []any{iv, fv}}
+	// whole numbers beyond the int64 range that float64 represents exactly
+	uv := []uint64{1 << 63, 1<<64 - 2048, 10000000000000000000, 7}[nd.Choose(4)]
+	cfg := &vCfg{keys: []string{"i", "f", "u", "k/é w"}, vals: []any{iv, fv, uv, "odd"}}
 	reg := support.DefaultDefinitionRegistry()
 	va := NewValueAwarePostProcessors().(*valueAwarePostProcessors)
 	pa := NewPropertiesAwarePostProcessors().(*propertiesAwarePostProcessors)
@@ -191,6 +196,9 @@ func VerifC17Scalars() {
 	nd.Observe("ints", int(h.IV), int(h.IP), int(h.IX))
 	nd.Assert(h.IX == int64(iv), "C17: binding by prefix gives the field exactly the configured integer")
 	nd.Assert(h.SX == strconv.Itoa(iv), "C17: an integer bound by prefix to a string field arrives as its decimal text")
+	nd.Assert(h.SK == "odd", "C17: a value is found under its key through a placeholder, whatever characters the key contains")
+	nd.Assert(h.UX == uv, "C17: binding by prefix gives the field exactly the configured unsigned integer")
+	nd.Assert(h.UV == uv, "C17: a whole number beyond the int64 range bound through a value placeholder equals the configured value")
 	nd.Assert(h.IV == int64(iv), "C17: an integer bound through a value placeholder equals the configured integer")
 	nd.Assert(h.IP == int64(iv), "C17: an integer bound through the prop shorthand equals the configured integer")
 	nd.Assert(h.FX == fv, "C17: binding by prefix gives the field exactly the configured float")
